@@ -205,10 +205,20 @@ def main():
                     definition = {"StartAt": "O", "States": {"O": outer, "R": {"Type": "Pass", "End": True}}}
                     for k in range(6 if thorough else 2):
                         deep_runs.append((definition, rng.randrange(10 ** 9), depth, handled))
+    # a sibling that is in the Catch path of its own failed Task (its slot carries the caught marker) and waits there is cancelled like any other
+    for wait_a, wait_b in ((10, 2), (5, 1), (3, 2)):
+        a = {"StartAt": "T", "States": {"T": {"Type": "Task", "Resource": FN + "f", "Catch": [{"ErrorEquals": ["States.ALL"], "ResultPath": "$.caught", "Next": "W"}], "Next": "W"},
+                                        "W": {"Type": "Wait", "Seconds": wait_a, "Next": "E"}, "E": {"Type": "Pass", "End": True}}}
+        b_ = {"StartAt": "V", "States": {"V": {"Type": "Wait", "Seconds": wait_b, "Next": "F"}, "F": {"Type": "Fail", "Error": "Boom", "Cause": "why"}}}
+        for kind in ("Parallel", "ParallelNext"):
+            outer = {"Type": "Parallel", "Branches": [a, b_], "End": True}
+            definition = {"StartAt": "O", "States": {"O": outer}}
+            for k in range(4 if thorough else 2):
+                deep_runs.append((definition, rng.randrange(10 ** 9), 1, "caught_path"))
     for k_run in range((700 if thorough else 150) + len(deep_runs)):
         if k_run < len(deep_runs):
             definition, sseed, depth, handled = deep_runs[k_run]
-            wk = cp.Worker(1, failures=0.0)
+            wk = cp.Worker(1, failures=1.0 if handled == "caught_path" else 0.0)
             data = {"x": 1}
         else:
             g = cp.Gen(rng, fanout=True, max_depth=3 if thorough else 2)
